@@ -84,7 +84,7 @@ impl Subject for SMVReg {
                 (*a, (ac.dot.actor, ac.dot.counter), vclock_to(&ac.clock))
             })
             .collect();
-        v.push(CtxProbe { entry: "read".into(), elem: None, add_clock: vclock_to(&r.add_clock), rm_clock: vclock_to(&r.rm_clock), derived: d, derived_rm: vclock_to(&s.read().derive_rm_ctx().clock) });
+        v.push(CtxProbe { entry: "read".into(), elem: None, add_clock: vclock_to(&r.add_clock), rm_clock: vclock_to(&r.rm_clock), derived: d, derived_rm: vclock_to(&s.read().derive_rm_ctx().clock), note: None });
         let r = s.read_ctx();
         let d = actors
             .iter()
@@ -93,7 +93,9 @@ impl Subject for SMVReg {
                 (*a, (ac.dot.actor, ac.dot.counter), vclock_to(&ac.clock))
             })
             .collect();
-        v.push(CtxProbe { entry: "read_ctx".into(), elem: None, add_clock: vclock_to(&r.add_clock), rm_clock: vclock_to(&r.rm_clock), derived: d, derived_rm: vclock_to(&s.read_ctx().derive_rm_ctx().clock) });
+        v.push(CtxProbe { entry: "read_ctx".into(), elem: None, add_clock: vclock_to(&r.add_clock), rm_clock: vclock_to(&r.rm_clock), derived: d, derived_rm: vclock_to(&s.read_ctx().derive_rm_ctx().clock), note: None });
+        v.push(split_probe("read", None, &|| s.read(), actors));
+        v.push(split_probe("read_ctx", None, &|| s.read_ctx(), actors));
         v
     }
     const RESET: bool = true;
